@@ -1,5 +1,5 @@
 /- Line-protocol driver for the one-shot helpers (C20). -/
-import Paho.Driver.Codec
+import Paho.Driver.Common
 import Paho.Model.Helpers
 namespace Paho.Driver
 open Paho Paho.Helpers
